@@ -25,7 +25,7 @@ m = {
     "setup_cmd": "./setup.sh",
     "hooks": {"guard": "verif", "enable": "go build -tags verif (harness module, replace github.com/nlnwa/whatwg-url => /repo)",
               "baseline_off_cmd": "cd /repo && go test -count=1 ./...",
-              "source_commits": ["c0d960d", "6e84822"], "add_only": True},
+              "source_commits": ["c0d960d", "6e84822", "8686523"], "add_only": True},
     "engines": [{"name": "coq+correspondence", "path": "/verif/check", "serves_properties": [p["id"] for p in props],
                  "kind_free_text": "Coq 8.16.1 theorems about a Gallina model (coq/), generated tables (harness/cmd/gentables), extracted OCaml driver, Go differential harness (harness/cmd/vh)"}],
     "checks": checks,
